@@ -275,6 +275,12 @@ pub fn run(ctx: &Ctx) -> Report {
     }
     // long inputs: clauses with up to maxk literals and lists of up to maxk unit clauses
     explicit.push((3, long_lists(ctx.tier.pick(9, 14)), "n3_long_clauses_and_long_unit_lists".to_string()));
+    // five variables: the same literal occurrences grouped differently under x and under !x
+    // (two residual formulas over the same assigned variables whose literals coincide)
+    {
+        let (xs, pats): (Vec<usize>, Vec<usize>) = if ctx.tier == Tier::Quick { (vec![0, 4], vec![0b1111, 0b0110]) } else { ((0..5).collect(), (0..16).collect()) };
+        explicit.push((5, crate::props::c09::regroup_family(&xs, &pats), "n5_regrouped_literals".to_string()));
+    }
     for (n, sets, name) in explicit {
         let chunks: Vec<&[Vec<Clause>]> = sets.chunks(if n >= 5 { 8 } else { 48 }).collect();
         let fam = par_run(ctx, &chunks, |_, chunk| {
